@@ -81,6 +81,8 @@ package bundle
 //@     invariant[offset-tracks-table] offset == sectionsStart + secSum(arr(sos), off(sos), rangeindex + 1)
 //@     invariant[offset-in-file] offset <= len(bs)
 //@     invariant -1 <= rangeindex && (rangeindex < len(sos) || len(sos) == 0)
+//@     invariant[last-step] len(sos) > 0 && secSum(arr(sos), off(sos), len(sos)) == secSum(arr(sos), off(sos), len(sos) - 1) + sos[len(sos) - 1].Length && secSum(arr(sos), off(sos), len(sos) - 1) >= 0
+//@     invariant[requests-in-responses] forall i int :: 0 <= i && i < len(meta.requests) ==> uint64(meta.requests[i].Offset - uint64(sectionsStart + secSum(arr(sos), off(sos), len(sos) - 1))) + meta.requests[i].Length <= sos[len(sos) - 1].Length
 
 //@ func loadResponse
 //@   props C05 C10
@@ -92,9 +94,13 @@ package bundle
 //@   props C05 C10
 //@   requires r != nil
 //@   assigns spos(r)
+//@   loop 0:
+//@     invariant fresh(es) && m != nil
+//@     invariant forall i int :: 0 <= i && i < len(m.requests) ==> m.requests[i].Offset + m.requests[i].Length <= len(bs)
 
 //@ func parseSignaturesSection
 //@   props C05 C10
+//@   trusted
 //@   assigns nothing
 //@ func parseIndexSectionWithVariants
 //@   props C05 C10
